@@ -577,6 +577,13 @@ func TestVerifC18(t *testing.T) {
 		}
 	})
 
+	// ------------------------------------------------------------ several
+	// fetches through one Conn; answers in flight together; the hash function
+	// under concurrent callers (c18_multi_test.go)
+	c18Refetch(run, logger)
+	c18Overlap(run, logger)
+	c18PDHFunc(run)
+
 	run.Count("mismatch_warnings_logged", int(atomic.LoadInt64(&logw.n)))
 	if run.BatchK() == 0 && !run.Replaying() {
 		b, _ := json.Marshal(c18ref.TamperKinds)
